@@ -87,6 +87,39 @@ func (s *ServiceExpr) Validate() error {
 			}
 		}
 	}
+	// An object user type yields one Go type with a single GoaErrorName method:
+	// errors with different names may share it, across the methods of the service
+	// too, only if one of its attributes holds the error name (two errors of one
+	// method are checked by the method validation).
+	type use struct {
+		name string
+		m    *MethodExpr
+	}
+	first := make(map[DataType]use)
+	check := func(e *ErrorExpr, m *MethodExpr) {
+		if _, ok := e.Type.(UserType); !ok || e.Type == ErrorResult || !IsObject(e.Type) {
+			return
+		}
+		named := false
+		walkAttribute(e.AttributeExpr, func(_ string, a *AttributeExpr) error { // nolint: errcheck
+			_, ok := a.Meta["struct:error:name"]
+			named = named || ok
+			return nil
+		})
+		if f, ok := first[e.Type]; !ok {
+			first[e.Type] = use{e.Name, m}
+		} else if !named && f.name != e.Name && f.m != m {
+			verr.Add(e, "type %q is used to define multiple errors and must identify the attribute containing the error name with ErrorName", e.Type.Name())
+		}
+	}
+	for _, e := range s.Errors {
+		check(e, nil)
+	}
+	for _, m := range s.Methods {
+		for _, e := range m.Errors {
+			check(e, m)
+		}
+	}
 	return verr
 }
 
